@@ -228,7 +228,7 @@ def build_vh(ctx, features, extra_flags=(), name="vh", san_flags=None, cc="clang
         return None, "\n".join(errs)[-4000:]
     exe = os.path.join(bdir, name)
     wl = ["-Wl,--wrap=malloc,--wrap=calloc,--wrap=realloc,--wrap=free,--wrap=strdup"] if wrap else []
-    rc, err = _cc([cc] + san + wl + objs + ["-o", exe])
+    rc, err = _cc([cc] + san + [f for f in extra_flags if f.startswith("--coverage")] + wl + objs + ["-o", exe])
     if rc != 0:
         return None, err[-4000:]
     return exe, ""
@@ -311,6 +311,69 @@ def run_lines_parallel(cmd, lines, env=None, jobs=None, cwd=None):
         for (k, what, se) in c:
             crashes.append((idx[k], what, se))
     return outs, crashes
+
+
+# --------------------------------------------------------------------------
+# generator quality: line coverage of the functions a property is anchored in
+
+def anchored_functions(prop_id):
+    """{function name: file} from properties.jsonl anchors.mechanism[].where ("lib/x.c: f, g; lib/y.c: h")."""
+    out = {}
+    for line in open(os.path.join(VERIF, "properties.jsonl")):
+        if not line.strip():
+            continue
+        p = json.loads(line)
+        if p["id"] != prop_id:
+            continue
+        for m in p.get("anchors", {}).get("mechanism", []):
+            for part in m.get("where", "").split(";"):
+                if ":" not in part:
+                    continue
+                f, _, names = part.partition(":")
+                for n in re.findall(r"[A-Za-z_][A-Za-z0-9_]*", names):
+                    if n not in ("and", "with", "ifdef", "LHARK", "the", "of", "in", "when"):
+                        out[n] = f.strip()
+    return out
+
+
+def anchor_coverage(ctx, prop_id, features, ops, max_ops=600):
+    """Build the harness with gcc --coverage (no sanitizers), run (a sample of) the correspondence ops through it and report
+    gcov line coverage of the property's anchored functions: {function: "executed/total"} + the never-executed ones."""
+    want = anchored_functions(prop_id)
+    if not want or not ops:
+        return None
+    vh, err = build_vh(ctx, features, extra_flags=["--coverage"], name="vhcov", san_flags=["-O0", "-g"], cc="gcc")
+    if vh is None:
+        return {"error": "coverage build failed: " + err[-300:]}
+    step = max(1, len(ops) // max_ops)
+    sample = ops[::step][:max_ops]
+    run_lines_parallel([vh, "20"], sample)
+    bdir = os.path.dirname(vh)
+    res = {}
+    for o in sorted(f for f in os.listdir(bdir) if f.endswith(".gcda")):
+        r = subprocess.run(["gcov", "-f", "-o", bdir, os.path.join(bdir, o[:-5] + ".o")], cwd=bdir, capture_output=True, text=True)
+        fn = None
+        for line in r.stdout.split("\n"):
+            m = re.match(r"Function '(\w+)'", line)
+            if m:
+                fn = m.group(1)
+                continue
+            m = re.match(r"Lines executed:([\d.]+)% of (\d+)", line)
+            if m and fn:
+                if fn in want:
+                    tot = int(m.group(2))
+                    ex = int(round(float(m.group(1)) * tot / 100.0))
+                    old = res.get(fn)
+                    if old is None or ex > old[0]:
+                        res[fn] = (ex, tot)
+                fn = None
+    rep = {"%s:%s" % (want[f], f): "%d/%d" % res[f] for f in sorted(res)}
+    missing = sorted(f for f in want if f not in res)
+    ex = sum(v[0] for v in res.values())
+    tot = sum(v[1] for v in res.values())
+    return {"functions": rep, "lines_executed": ex, "lines_total": tot, "ops_sampled": len(sample),
+            "not_in_harness": ["%s:%s" % (want[f], f) for f in missing],
+            "never_executed": [k for k, v in rep.items() if v.startswith("0/")]}
 
 
 # --------------------------------------------------------------------------
